@@ -116,7 +116,7 @@ def leaf_family(ctx, n, spread=6, pinv=0.25, tries=200):
     raise RuntimeError("could not generate a general-position family")
 
 
-def scaled_family(ctx, n, scales=(F(1, 50000), F(1, 20000), F(1, 5000), F(1, 200), F(1000)), pinv=0.25, tries=300, force=None):
+def scaled_family(ctx, n, scales=(F(1, 50000), F(1, 20000), F(1, 5000), F(1, 200), F(1000)), pinv=0.25, tries=300, force=None, crossing=False):
     """n integer-coordinate polygons jointly in general position, all multiplied by one exact scale factor (drawings in other
     units).  Integer coordinates keep every crossing point's denominator below 10^9 after scaling, so results stay exact."""
     rng = ctx.rng
@@ -137,6 +137,8 @@ def scaled_family(ctx, n, scales=(F(1, 50000), F(1, 20000), F(1, 5000), F(1, 200
         # fragile territory (finding K8): the library decides "point on curve" with an ABSOLUTE 1e-6, so a drawing whose features come closer than
         # that - at ITS unit - is decided differently from the same drawing at unit 1.  Random drawings keep 20x that distance; the catalogued
         # near-tolerance drawing is a deterministic corpus entry of C01.
+        if crossing and not gen.crosses(out[0], out[1]):
+            continue
         if gen.separation(out) < 2e-5:
             ctx.count("scaled-family:rejected-near-tolerance")
             continue
